@@ -78,8 +78,8 @@ theorem lookupJ_none_of_not_mem : ∀ (kvs : List (String × Json)) (k : String)
 
 /-- **the streaming loop computes the declarative decoder**: after all members, every field holds what its own
     member (looked up by name) decodes to, or `omitted` -/
-theorem decodeMembers_spec (fs : List Field) (hn : (names fs).Nodup) : ∀ (rest done : List (String × Json)) (st' : List Val),
-    (keys (done ++ rest)).Nodup → decodeMembers fs (fs.map (fieldState done)) rest = some st' →
+theorem decodeMembers_spec (closed : Bool) (fs : List Field) (hn : (names fs).Nodup) : ∀ (rest done : List (String × Json)) (st' : List Val),
+    (keys (done ++ rest)).Nodup → decodeMembers closed fs (fs.map (fieldState done)) rest = some st' →
     st' = fs.map (fieldState (done ++ rest))
   | [], done, st', _, h => by simp [decodeMembers] at h; simp [← h]
   | (k, jv) :: rest, done, st', hk, h => by
@@ -92,9 +92,11 @@ theorem decodeMembers_spec (fs : List Field) (hn : (names fs).Nodup) : ∀ (rest
     simp only [decodeMembers] at h
     split at h
     · rename_i hf
-      rw [← map_fieldState_skip done k jv fs (findIdx_none fs k 0 hf)] at h
-      have := decodeMembers_spec fs hn rest (done ++ [(k, jv)]) st' hk' h
-      simpa [List.append_assoc] using this
+      split at h
+      · cases h
+      · rw [← map_fieldState_skip done k jv fs (findIdx_none fs k 0 hf)] at h
+        have := decodeMembers_spec closed fs hn rest (done ++ [(k, jv)]) st' hk' h
+        simpa [List.append_assoc] using this
     · rename_i i nul t hf
       split at h
       · cases h
@@ -102,11 +104,11 @@ theorem decodeMembers_spec (fs : List Field) (hn : (names fs).Nodup) : ∀ (rest
         have hset := map_fieldState_set done k jv v (lookupJ_none_of_not_mem done k hnot) fs 0 i nul t hf hn hv
         simp only [Nat.sub_zero] at hset
         rw [hset] at h
-        have := decodeMembers_spec fs hn rest (done ++ [(k, jv)]) st' hk' h
+        have := decodeMembers_spec closed fs hn rest (done ++ [(k, jv)]) st' hk' h
         simpa [List.append_assoc] using this
 
-theorem decode_obj_spec (fs : List Field) (kvs : List (String × Json)) (st : List Val) (hn : (names fs).Nodup)
-    (hk : (keys kvs).Nodup) (h : decode (.obj fs) (.obj kvs) = some (.obj st)) : st = fs.map (fieldState kvs) := by
+theorem decode_obj_spec (closed : Bool) (fs : List Field) (kvs : List (String × Json)) (st : List Val) (hn : (names fs).Nodup)
+    (hk : (keys kvs).Nodup) (h : decode (.obj closed fs) (.obj kvs) = some (.obj st)) : st = fs.map (fieldState kvs) := by
   simp only [decode] at h
   split at h
   · rename_i st0 hst
@@ -115,7 +117,7 @@ theorem decode_obj_spec (fs : List Field) (kvs : List (String × Json)) (st : Li
       have hinit : (fs.map fun _ => Val.omitted) = fs.map (fieldState []) := by
         apply List.map_congr_left; intro f _; simp [fieldState, lookupJ]
       rw [hinit] at hst
-      simpa using decodeMembers_spec fs hn kvs [] st (by simpa using hk) hst
+      simpa using decodeMembers_spec closed fs hn kvs [] st (by simpa using hk) hst
     · cases h
   · cases h
 
@@ -135,15 +137,15 @@ theorem validate_null (t : Ty) : validate t .null = true := by cases t <;> simp 
 theorem constr_null (t : Ty) : Constr t .null := by cases t <;> simp [Constr]
 
 /-- object case, given the statement for every member value -/
-theorem validate_obj (fs : List Field) (kvs : List (String × Json)) (hn : (names fs).Nodup) (hw : Ty.WF.WFs fs)
-    (ha : AcceptM fs kvs)
+theorem validate_obj (closed : Bool) (fs : List Field) (kvs : List (String × Json)) (hn : (names fs).Nodup) (hw : Ty.WF.WFs fs)
+    (ha : AcceptM closed fs kvs)
     (ih : ∀ k jv, (k, jv) ∈ kvs → ∀ (t : Ty) (v : Val), t.WF → decode t jv = some v → (validate t v = true ↔ Constr t jv)) :
     ∀ (fs' : List Field), (∀ f ∈ fs', f ∈ fs) →
       (validateFields fs' (fs'.map (fieldState kvs)) = true ↔ ConstrFields fs' kvs)
   | [], _ => by simp [validateFields, ConstrFields]
   | (n, req, nul, t) :: fs', hsub => by
     have hmem : (n, req, nul, t) ∈ fs := hsub _ (List.mem_cons_self ..)
-    have hrest := validate_obj fs kvs hn hw ha ih fs' (fun f hf => hsub f (List.mem_cons_of_mem _ hf))
+    have hrest := validate_obj closed fs kvs hn hw ha ih fs' (fun f hf => hsub f (List.mem_cons_of_mem _ hf))
     simp only [List.map_cons, validateFields, ConstrFields, Bool.and_eq_true, hrest]
     apply and_congr_left'
     unfold fieldState
@@ -153,7 +155,7 @@ theorem validate_obj (fs : List Field) (kvs : List (String × Json)) (hn : (name
       simp only
       have hm := lookupJ_mem hl
       obtain ⟨i, hi⟩ := findIdx_mem fs n req nul t 0 hn hmem
-      have hsome := ha n jv hm i nul t hi
+      have hsome := ha.1 n jv hm i nul t hi
       cases hv : memberOf nul jv (decode t jv) with
       | none => rw [hv] at hsome; cases hsome
       | some v =>
@@ -168,12 +170,12 @@ theorem validate_obj (fs : List Field) (kvs : List (String × Json)) (hn : (name
           simp only [memberOf] at hv
           exact ih n _ hm t v (wfs_mem fs _ hw hmem) hv
 
-theorem acceptM_of_decode (fs : List Field) (kvs : List (String × Json)) (v : Val) (h : decode (.obj fs) (.obj kvs) = some v) :
-    AcceptM fs kvs := by
+theorem acceptM_of_decode (closed : Bool) (fs : List Field) (kvs : List (String × Json)) (v : Val) (h : decode (.obj closed fs) (.obj kvs) = some v) :
+    AcceptM closed fs kvs := by
   simp only [decode] at h
   split at h
   · rename_i st hst
-    exact (decodeMembers_isSome fs kvs _).mp (by rw [hst]; rfl)
+    exact (decodeMembers_isSome closed fs kvs _).mp (by rw [hst]; rfl)
   · cases h
 
 mutual
@@ -183,7 +185,11 @@ theorem validate_iff : ∀ (j : Json) (t : Ty) (v : Val), t.WF → UniqueKeys j 
   | .null, t, v, _, _, h => by cases t <;> simp [decode] at h
   | .bool b, t, v, _, _, h => by cases t <;> simp [decode] at h; subst h; simp [validate, Constr]
   | .str s, t, v, _, _, h => by cases t <;> simp [decode] at h; subst h; simp [validate, Constr]
-  | .num n, t, v, _, _, h => by cases t <;> simp [decode] at h; subst h; simp [validate, Constr]
+  | .num (.int n), t, v, _, _, h => by
+    cases t <;> simp [decode] at h
+    obtain ⟨_, rfl⟩ := h
+    simp [validate, Constr]
+  | .num .frac, t, v, _, _, h => by cases t <;> simp [decode] at h
   | .arr xs, t, v, hw, hu, h => by
     cases t with
     | arr c nul t =>
@@ -194,19 +200,19 @@ theorem validate_iff : ∀ (j : Json) (t : Ty) (v : Val), t.WF → UniqueKeys j 
       have hlen : vs.length = xs.length := decodeItems_length nul t xs vs hvs
       simp only [validate, Constr, Bool.and_eq_true, hlen]
       exact and_congr_right' (validate_items xs nul t vs hw hu hvs)
-    | int _ | str _ | bool | obj _ => simp [decode] at h
+    | int _ | str _ | bool | obj _ _ => simp [decode] at h
   | .obj kvs, t, v, hw, hu, h => by
     cases t with
-    | obj fs =>
+    | obj closed fs =>
       simp only [Ty.WF] at hw
       simp only [UniqueKeys] at hu
       have hwt := decode_wt _ _ _ h
       cases v with
       | obj st =>
-        have hst := decode_obj_spec fs kvs st hw.1 (by simpa [keys] using hu.1) h
+        have hst := decode_obj_spec closed fs kvs st hw.1 (by simpa [keys] using hu.1) h
         subst hst
         simp only [validate, Constr]
-        exact validate_obj fs kvs hw.1 hw.2 (acceptM_of_decode fs kvs _ h) (validate_members kvs hu.2) fs (fun f hf => hf)
+        exact validate_obj closed fs kvs hw.1 hw.2 (acceptM_of_decode closed fs kvs _ h) (validate_members kvs hu.2) fs (fun f hf => hf)
       | omitted | null | int _ | str _ | bool _ | arr _ => simp [WT] at hwt
     | int _ | str _ | bool | arr _ _ _ => simp [decode] at h
 theorem validate_items : ∀ (xs : List Json) (nul : Bool) (t : Ty) (vs : List Val), t.WF → UniqueKeysL xs →
@@ -260,7 +266,7 @@ theorem accept_iff_schemaValid (t : Ty) (j : Json) (hw : t.WF) (hu : UniqueKeys 
     exact validate_iff j t v hw hu hd
 
 /-! non-vacuity -/
-def exK : Ty := .obj [("n", true, false, .int { min := some 0, max := some 10, exMax := true, mult := some 2 }),
+def exK : Ty := .obj false [("n", true, false, .int { min := some 0, max := some 10, exMax := true, mult := some 2 }),
   ("s", false, true, .str { min := 1, max := some 3 }), ("xs", false, false, .arr { max := some 2 } true (.int { min := some 1 }))]
 example : accept exK (.obj [("s", .str "日本"), ("n", .num 8), ("zz", .null), ("xs", .arr [.null, .num 1])]) = true := by rfl
 example : accept exK (.obj [("n", .num 10)]) = false := by rfl          -- exclusive maximum
@@ -270,3 +276,12 @@ example : accept exK (.obj [("n", .num 2), ("s", .null), ("xs", .arr [.num 1, .n
 example : accept exK (.obj [("n", .num 2), ("xs", .arr [.num 0])]) = false := by rfl   -- item minimum
 end JCodec
 #print axioms JCodec.accept_iff_schemaValid
+namespace JCodec
+/-! closed objects, the integer range and fraction literals -/
+def exC : Ty := .obj true [("n", true, false, .int {})]
+example : accept exC (.obj [("n", .num 1)]) = true := by rfl
+example : accept exC (.obj [("n", .num 1), ("zz", .null)]) = false := by rfl                  -- undeclared member, closed
+example : accept exC (.obj [("n", .num .frac)]) = false := by rfl                              -- 1.0 is no integer literal
+example : accept exC (.obj [("n", .num (.int 9223372036854775808))]) = false := by rfl          -- beyond 64 bits
+example : accept exC (.obj [("n", .num (.int (-9223372036854775808)))]) = true := by rfl
+end JCodec
